@@ -45,6 +45,8 @@ func init() {
 }
 
 func runC15(c *Ctx, r *Report) {
+	r.Rule("C15/single-dial", "one Telnet.Open dials and negotiates on exactly one connection (data pre-read from an abandoned attempt would be delivered first)", 1)
+	checkTelnetSingleDial(c, r, "C15/single-dial")
 	importFoundation(c, r, "C15", "driver-options")
 	importFoundation(c, r, "C15", "transport-pipe")
 	r.Rule("C15/automaton", "every cell of the negotiation automaton (state x byte class [x verb]) has exactly the specified effects", 40)
